@@ -24,18 +24,22 @@
  */
 
 type TokenCount = u32;
-pub type RealTimeClock = std::time::SystemTime;
+pub struct RealTimeClock;
 
 pub trait Clock: Send + Sync + 'static {
     fn now() -> u32;
 }
 
 impl Clock for RealTimeClock {
+    /* Seconds on the monotonic clock, so that stepping the wall clock neither refills the buckets
+     * nor shuts them for as long as the step was.  Counting starts one full bucket in, which is
+     * what the arithmetic below needs to never go below zero.
+     */
     fn now() -> u32 {
-        RealTimeClock::now()
-            .duration_since(RealTimeClock::UNIX_EPOCH)
-            .unwrap()
-            .as_secs() as u32
+        static START: std::sync::OnceLock<std::time::Instant> = std::sync::OnceLock::new();
+        let start = START.get_or_init(std::time::Instant::now);
+        GenericTokenBucket::MAX_TOKENS / GenericTokenBucket::TOKENS_PER_SECOND
+            + start.elapsed().as_secs() as u32
     }
 }
 
